@@ -4,9 +4,9 @@
    (CombinedScan::new sorts by (has fix, id)), Front/Select.v (for_path sorts by id), Tree/Tree.v
    ([sort_kv]: the constraints are walked in sorted variable order — after fix e2c7cf3), and an
    abstract model of the transformation pass (any topological order).  Proofs: Front/PermProofs.v.
-   Known finding (known_findings.txt, class util-kinds-cache-order): the construction-time cache of
-   potential kinds makes ACCEPTANCE of some rule documents depend on the utilities' registration
-   order; the caching is not part of these models (see C01's level note). *)
+   The construction-time cache of potential kinds is not part of these models (see C01's level
+   note); its one order dependence (a utility reached only through nthChild.ofRule) was a genuine
+   defect found by the repeated-load stream and repaired (known_findings.txt). *)
 From Coq Require Import List NArith ZArith Bool Arith Permutation.
 From AG Require Import Base.Val Base.Sort Tree.Tree Rule.Rule Rule.Traversal Rule.Scan Front.Select Front.PermSpec Front.PermProofs.
 Import ListNotations.
